@@ -5,11 +5,12 @@ import Ops.Quant
 import Ops.CornerTable
 import Ops.Metadata
 import Ops.BitCoders
+import Ops.MeshTools
 /- Line-protocol driver of the executable model: one op per line in, one line out. -/
 open Draco
 
 def allOps : List (String × (List String → String)) :=
-  Ops.coreOps ++ Ops.codecOps ++ Ops.transformOps ++ Ops.quantOps ++ Ops.cornerTableOps ++ Ops.metadataOps ++ Ops.bitCoderOps
+  Ops.coreOps ++ Ops.codecOps ++ Ops.transformOps ++ Ops.quantOps ++ Ops.cornerTableOps ++ Ops.metadataOps ++ Ops.bitCoderOps ++ Ops.meshToolOps
 
 def dispatch (line : String) : String :=
   match (line.trimAscii.toString.splitOn " ").filter (· ≠ "") with
